@@ -484,12 +484,45 @@ fn ev(kv: Vec<(&str, Value)>) -> Value { Value::obj(kv) }
 /// Executes the operations of one case on a fresh program value and writes the trace
 /// (case / push / call / hook events / ret / state) to `out`.
 pub fn drive(case: &Value, out: &mut Out, mk: fn() -> Box<dyn Driven>) {
-   for l in drive_lines(case, mk) {
+   for l in drive_lines(case, mk, true) {
       out.line(&l);
    }
 }
 
-pub fn drive_lines(case: &Value, mk: fn() -> Box<dyn Driven>) -> Vec<Value> {
+/// Runs the cases of one group simultaneously, each on its own OS thread (released by a barrier).
+/// The hook event sink is process-wide, so grouped cases are run without hooks: only their calls,
+/// return values and final states are recorded.
+pub fn drive_group(cases: &[(Value, fn() -> Box<dyn Driven>)], out: &mut Out) {
+   let barrier = std::sync::Arc::new(std::sync::Barrier::new(cases.len()));
+   let handles: Vec<_> = cases
+      .iter()
+      .map(|(c, mk)| {
+         let c = c.clone();
+         let mk = *mk;
+         let b = barrier.clone();
+         std::thread::spawn(move || {
+            b.wait();
+            drive_lines(&c, mk, false)
+         })
+      })
+      .collect();
+   for (h, (c, _)) in handles.into_iter().zip(cases.iter()) {
+      match h.join() {
+         Ok(lines) => {
+            for l in lines {
+               out.line(&l);
+            }
+         },
+         Err(_) => {
+            out.line(&ev(vec![("e", Value::str("case")), ("id", c["id"].clone()), ("prog", c["prog"].clone()),
+                              ("pi", c["pi"].clone()), ("var", c["var"].clone()), ("mode", c["mode"].clone())]));
+            out.line(&ev(vec![("e", Value::str("ret")), ("v", Value::str("panic")), ("msg", Value::str("thread of a grouped case died"))]));
+         },
+      }
+   }
+}
+
+pub fn drive_lines(case: &Value, mk: fn() -> Box<dyn Driven>, hooks: bool) -> Vec<Value> {
    use ascent::internal::verif;
    let mut out = vec![];
    out.push(ev(vec![
@@ -545,10 +578,12 @@ pub fn drive_lines(case: &Value, mk: fn() -> Box<dyn Driven>) -> Vec<Value> {
                ("k", Value::Int(k as i64)),
                ("pool", Value::Int(pool as i64)),
             ]));
-            verif::arm();
-            verif::perturb_arm(perturb);
-            if kind == "run_timeout" {
-               verif::clock_arm();
+            if hooks {
+               verif::arm();
+               verif::perturb_arm(perturb);
+               if kind == "run_timeout" {
+                  verif::clock_arm();
+               }
             }
             let dref = AssertSend(&mut d);
             let r = guarded(move || {
@@ -562,10 +597,12 @@ pub fn drive_lines(case: &Value, mk: fn() -> Box<dyn Driven>) -> Vec<Value> {
                   }
                })
             });
-            let checks = if kind == "run_timeout" { verif::clock_disarm() } else { 0 };
-            verif::perturb_arm(0);
-            for e in hook_events(verif::disarm()) {
-               out.push(e);
+            let checks = if hooks && kind == "run_timeout" { verif::clock_disarm() } else { 0 };
+            if hooks {
+               verif::perturb_arm(0);
+               for e in hook_events(verif::disarm()) {
+                  out.push(e);
+               }
             }
             match r {
                Ok(Some(v)) => out.push(ev(vec![("e", Value::str("ret")), ("v", Value::Bool(v)), ("checks", Value::Int(checks as i64))])),
